@@ -34,6 +34,10 @@ Inductive chan_kind := ChNone | ChUnbuf | ChUnbufSel | ChBuf1 | ChBufNB.
 Inductive send_site := SendNever | SendOnTraffic | SendOnBind.
 Inductive close_kind := CloseIdem | CloseRaw.   (* CloseRaw: close(ch) without an isClosed test *)
 Inductive table_kind := TNone | TPerSsrc | TShared.  (* TShared: one state for all streams (jitter buffer) *)
+(* one goroutine per incoming NACK (nack responder).  SpawnWaited: `startResend` - under the mutex
+   `if closed return; wg.Add(1); go ...`; SpawnUnwaited: plain `go n.resendPackets(nack)`, no closed test,
+   Close does not wait (responder before its fix) *)
+Inductive spawn_kind := SpawnNone | SpawnWaited | SpawnUnwaited.
 
 Record cfg := mkCfg {
   f_loop : loop_kind;
@@ -45,14 +49,16 @@ Record cfg := mkCfg {
   f_table : table_kind;
   f_unbind : bool;           (* Unbind* deletes / resets the entry *)
   f_bind_resets : bool;      (* Bind* installs a fresh entry even if one exists *)
-  f_emit_needs_traffic : bool (* a tick writes about a stream only if its state is not fresh *)
+  f_emit_needs_traffic : bool; (* a tick writes about a stream only if its state is not fresh *)
+  f_spawn : spawn_kind       (* an incoming NACK about a registered stream is answered by a new goroutine *)
 }.
 
 (* WSend x is_bind fl: parked in the channel send of Bind x / Traffic x; fl is the flag of the item it will
    hand over (set by an Unbind x that overtakes the parked caller: the item is then already in flight) *)
 Inductive wait := WSend (x : Z) (is_bind : bool) (fl : bool) | WWg.
 
-Inductive lstate := LIdle | LWrite (pending : list (Z * bool)).
+(* LOnce: a one-shot goroutine (resend of the packets a NACK asks for): it writes its pending list and is gone *)
+Inductive lstate := LIdle | LWrite (pending : list (Z * bool)) | LOnce (pending : list (Z * bool)).
 (* a pending entry (x, fl): the loop is about to write something about SSRC x; fl = true iff the
    entry was produced before the latest Unbind of x returned ("already in flight"), or the entry is not
    feedback about a stream at all (a packet of the caller of Traffic; the transport-wide report -1) *)
@@ -72,7 +78,8 @@ Record st := mkSt {
   late_unbind : list Z              (* ghost: x for every write about x produced after Unbind x returned *)
 }.
 
-Inductive op := OBindW | OBindR | OBind (x : Z) | OUnbind (x : Z) | OTraffic (x : Z) | OClose.
+(* ORtcp x: an incoming NACK about SSRC x, read through the reader returned by BindRTCPReader *)
+Inductive op := OBindW | OBindR | OBind (x : Z) | OUnbind (x : Z) | OTraffic (x : Z) | OClose | ORtcp (x : Z).
 
 Inductive label :=
 | Call (t : nat) (o : op)
@@ -99,7 +106,7 @@ Definition zremove (x : Z) (l : list Z) : list Z := filter (fun y => negb (y =? 
 Definition flag (x : Z) (l : list (Z * bool)) : list (Z * bool) :=
   map (fun e => if fst e =? x then (fst e, true) else e) l.
 Definition lflag (x : Z) (l : lstate) : lstate :=
-  match l with LIdle => LIdle | LWrite p => LWrite (flag x p) end.
+  match l with LIdle => LIdle | LWrite p => LWrite (flag x p) | LOnce p => LOnce (flag x p) end.
 Definition norm (p : list (Z * bool)) : lstate := match p with [] => LIdle | _ => LWrite p end.
 Definition wflag (x : Z) (w : wait) : wait :=
   match w with WSend y b fl => if y =? x then WSend y b true else w | WWg => WWg end.
@@ -184,6 +191,14 @@ Definition send_or_park (c : cfg) (s : st) (t : nat) (x : Z) (is_bind : bool) (f
   | None => set_blocked s ((t, WSend x is_bind fl) :: blocked s)
   end.
 
+(* the stream a NACK asks about is registered (only interceptors with a per-SSRC table answer NACKs) *)
+Definition registered (c : cfg) (s : st) (x : Z) : option nat :=
+  match f_table c with TPerSsrc => tfind x (table s) | _ => None end.
+
+(* does an incoming NACK start a goroutine in this state? *)
+Definition spawns (c : cfg) (s : st) : bool :=
+  match f_spawn c with SpawnNone => false | SpawnWaited => negb (closed s) | SpawnUnwaited => true end.
+
 Definition call (c : cfg) (s : st) (t : nat) (o : op) : st :=
   match o with
   | OBindW =>
@@ -216,6 +231,16 @@ Definition call (c : cfg) (s : st) (t : nat) (o : op) : st :=
                 (panicked s) (emitted s) (late_close s) (late_unbind s)
       else mkSt true true (loops s) (next_lid s) (chanq s) (close_table c (table s)) (dead s) (blocked s)
                 (panicked s) (emitted s) (late_close s) (late_unbind s)
+  | ORtcp x =>
+      if spawns c s then
+        match registered c s x with
+        | None => s
+        | Some _ =>
+            mkSt (closed s) (close_ret s) (loops s ++ [(next_lid s, LOnce [(x, false)])]) (S (next_lid s))
+                 (chanq s) (table s) (dead s) (blocked s) (panicked s) (emitted s) (late_close s)
+                 (late_unbind s)
+        end
+      else s
   end.
 
 Definition resume (c : cfg) (s : st) (t : nat) : option st :=
@@ -234,11 +259,17 @@ Definition resume (c : cfg) (s : st) (t : nat) : option st :=
       end
   end.
 
-Definition emit (s : st) (i : nat) (x : Z) (fl : bool) (rest : list (Z * bool)) : st :=
-  mkSt (closed s) (close_ret s) (lset i (norm rest) (loops s)) (next_lid s) (chanq s) (table s) (dead s)
+(* one write about x with flag fl; ls = the loops afterwards *)
+Definition emit_ls (s : st) (ls : list (nat * lstate)) (x : Z) (fl : bool) : st :=
+  mkSt (closed s) (close_ret s) ls (next_lid s) (chanq s) (table s) (dead s)
        (blocked s) (panicked s) (emitted s ++ [x])
        (if close_ret s then S (late_close s) else late_close s)
        (if zmem x (dead s) && negb fl then x :: late_unbind s else late_unbind s).
+Definition emit (s : st) (i : nat) (x : Z) (fl : bool) (rest : list (Z * bool)) : st :=
+  emit_ls s (lset i (norm rest) (loops s)) x fl.
+(* a one-shot goroutine after a write: gone when nothing is left *)
+Definition once_next (i : nat) (rest : list (Z * bool)) (ls : list (nat * lstate)) : list (nat * lstate) :=
+  match rest with [] => ldel i ls | _ => lset i (LOnce rest) ls end.
 
 (* the transition relation as a partial function: None = label not enabled in s *)
 Definition step (c : cfg) (s : st) (l : label) : option st :=
@@ -253,6 +284,7 @@ Definition step (c : cfg) (s : st) (l : label) : option st :=
   | LEmit i =>
       match lfind i (loops s) with
       | Some (LWrite ((x, fl) :: rest)) => Some (emit s i x fl rest)
+      | Some (LOnce ((x, fl) :: rest)) => Some (emit_ls s (once_next i rest (loops s)) x fl)
       | _ => None
       end
   | LRecv i =>
@@ -278,39 +310,43 @@ Definition reachable (c : cfg) (s : st) : Prop := exists tr, run c (init c) tr =
 
 (* ---- safety predicates on feature records ---- *)
 Definition close_safe (c : cfg) : bool :=
-  match f_loop c with LoopNone => true | _ => f_wg c end.
+  (match f_loop c with LoopNone => true | _ => f_wg c end) &&
+  (match f_spawn c with SpawnNone => true | SpawnWaited => f_wg c | SpawnUnwaited => false end).
 Definition chan_safe (c : cfg) : bool :=
   match f_chan c with ChNone | ChUnbufSel | ChBufNB => true | _ => false end.
 Definition close_idem (c : cfg) : bool :=
   match f_close c with CloseIdem => true | CloseRaw => false end.
 Definition unbind_safe (c : cfg) : bool :=
   match f_table c with TNone => true | _ => f_unbind c end.
+(* a rebind starts fresh if Bind installs a fresh entry, or if Unbind removed the old one *)
 Definition rebind_safe (c : cfg) : bool :=
-  match f_table c with TNone => true | TPerSsrc => f_bind_resets c | TShared => f_bind_resets c end.
+  match f_table c with TNone => true | TPerSsrc => f_bind_resets c || f_unbind c | TShared => f_bind_resets c end.
 Definition safe_cfg (c : cfg) : bool :=
   close_safe c && chan_safe c && close_idem c && unbind_safe c && rebind_safe c.
 
 (* ---- feature records of the interceptors (hand-assigned from the source, after the fix: commits) ---- *)
 (*                                  loop        wg    chan       site          recvE close     table    unbind reset needsT *)
-Definition nack_generator_cfg := mkCfg LoopOnBindW true  ChNone     SendNever     false CloseIdem TPerSsrc true  true  true.
-Definition nack_responder_cfg := mkCfg LoopNone    false ChNone     SendNever     false CloseIdem TPerSsrc true  true  false.
-Definition report_receiver_cfg := mkCfg LoopOnBindW true ChNone     SendNever     false CloseIdem TPerSsrc true  true  false.
-Definition report_sender_cfg  := mkCfg LoopOnBindW true  ChNone     SendNever     false CloseIdem TPerSsrc true  true  false.
-Definition twcc_sender_cfg    := mkCfg LoopOnBindW true  ChUnbufSel SendOnTraffic false CloseIdem TNone    false false false.
-Definition rfc8888_cfg        := mkCfg LoopOnBindW true  ChUnbufSel SendOnTraffic false CloseIdem TPerSsrc false false true.
-Definition rfc8888_unfixed_cfg := mkCfg LoopOnBindW true ChUnbuf    SendOnTraffic false CloseIdem TPerSsrc false false true.
-Definition intervalpli_cfg    := mkCfg LoopOnBindW true  ChBufNB    SendOnBind    true  CloseIdem TPerSsrc true  true  false.
-Definition intervalpli_unfixed_cfg := mkCfg LoopOnBindW true ChBuf1 SendOnBind    true  CloseIdem TPerSsrc false true  false.
-Definition stats_cfg          := mkCfg LoopNone    true  ChNone     SendNever     false CloseIdem TPerSsrc false false false.
-Definition packetdump_cfg     := mkCfg LoopAtNew   true  ChUnbufSel SendOnTraffic false CloseIdem TNone    false false false.
-Definition pacing_cfg         := mkCfg LoopAtNew   true  ChBufNB    SendOnTraffic true  CloseIdem TNone    false false false.
-Definition pacing_unfixed_cfg := mkCfg LoopAtNew   true  ChBufNB    SendOnTraffic true  CloseRaw  TNone    false false false.
-Definition gcc_cfg            := mkCfg LoopAtNew   true  ChBufNB    SendOnTraffic true  CloseIdem TNone    false false false.
-Definition gcc_unfixed_cfg    := mkCfg LoopAtNew   false ChBufNB    SendOnTraffic true  CloseRaw  TNone    false false false.
-Definition jitterbuffer_cfg   := mkCfg LoopNone    true  ChNone     SendNever     false CloseIdem TShared  true  false false.
-Definition flexfec_cfg        := mkCfg LoopNone    false ChNone     SendNever     false CloseIdem TPerSsrc true  true  false.
+Definition nack_generator_cfg := mkCfg LoopOnBindW true  ChNone     SendNever     false CloseIdem TPerSsrc true  true  true SpawnNone.
+Definition nack_responder_cfg := mkCfg LoopNone    true  ChNone     SendNever     false CloseIdem TPerSsrc true  true  false SpawnWaited.
+Definition nack_responder_unfixed_cfg := mkCfg LoopNone false ChNone  SendNever     false CloseIdem TPerSsrc true  true  false SpawnUnwaited.
+Definition report_receiver_cfg := mkCfg LoopOnBindW true ChNone     SendNever     false CloseIdem TPerSsrc true  true  false SpawnNone.
+Definition report_sender_cfg  := mkCfg LoopOnBindW true  ChNone     SendNever     false CloseIdem TPerSsrc true  true  false SpawnNone.
+Definition twcc_sender_cfg    := mkCfg LoopOnBindW true  ChUnbufSel SendOnTraffic false CloseIdem TNone    false false false SpawnNone.
+Definition rfc8888_cfg        := mkCfg LoopOnBindW true  ChUnbufSel SendOnTraffic false CloseIdem TPerSsrc false false true SpawnNone.
+Definition rfc8888_unfixed_cfg := mkCfg LoopOnBindW true ChUnbuf    SendOnTraffic false CloseIdem TPerSsrc false false true SpawnNone.
+Definition intervalpli_cfg    := mkCfg LoopOnBindW true  ChBufNB    SendOnBind    true  CloseIdem TPerSsrc true  true  false SpawnNone.
+Definition intervalpli_unfixed_cfg := mkCfg LoopOnBindW true ChBuf1 SendOnBind    true  CloseIdem TPerSsrc false true  false SpawnNone.
+Definition stats_cfg          := mkCfg LoopNone    true  ChNone     SendNever     false CloseIdem TPerSsrc true  false false SpawnNone.
+Definition stats_unfixed_cfg  := mkCfg LoopNone    true  ChNone     SendNever     false CloseIdem TPerSsrc false false false SpawnNone.
+Definition packetdump_cfg     := mkCfg LoopAtNew   true  ChUnbufSel SendOnTraffic false CloseIdem TNone    false false false SpawnNone.
+Definition pacing_cfg         := mkCfg LoopAtNew   true  ChBufNB    SendOnTraffic true  CloseIdem TNone    false false false SpawnNone.
+Definition pacing_unfixed_cfg := mkCfg LoopAtNew   true  ChBufNB    SendOnTraffic true  CloseRaw  TNone    false false false SpawnNone.
+Definition gcc_cfg            := mkCfg LoopAtNew   true  ChBufNB    SendOnTraffic true  CloseIdem TNone    false false false SpawnNone.
+Definition gcc_unfixed_cfg    := mkCfg LoopAtNew   false ChBufNB    SendOnTraffic true  CloseRaw  TNone    false false false SpawnNone.
+Definition jitterbuffer_cfg   := mkCfg LoopNone    true  ChNone     SendNever     false CloseIdem TShared  true  false false SpawnNone.
+Definition flexfec_cfg        := mkCfg LoopNone    false ChNone     SendNever     false CloseIdem TPerSsrc true  true  false SpawnNone.
 (* chain.go forwards every call to its members in order; the instance checked is Chain [nack generator; report receiver] *)
-Definition chain_cfg          := mkCfg LoopOnBindW true  ChNone     SendNever     false CloseIdem TPerSsrc true  true  false.
+Definition chain_cfg          := mkCfg LoopOnBindW true  ChNone     SendNever     false CloseIdem TPerSsrc true  true  false SpawnNone.
 
 (* ---- canonical sequential schedule (used by the correspondence only) ----
    After every API call of a script "time passes": every loop finishes what it is writing; if the
